@@ -2171,3 +2171,272 @@ Proof.
   rewrite write_body_closed; [reflexivity|apply effective_good; assumption| |exact Hm|exact Hx].
   intros E. destruct (Hne E) as [H|H]; [left; exact H|right]. intros Hn. apply H. destruct (effective_writers o m); [reflexivity|discriminate].
 Qed.
+
+(* ================= the header describes the body: whole file, any writer table ================= *)
+Definition face_bytes (m : wmesh) : nat := if has_tex m then 38%nat else 13%nat.
+Definition face_toks (m : wmesh) : nat := if has_tex m then 11%nat else 4%nat.
+
+Lemma flat_map_const_length {A B} (f : A -> list B) k l : (forall x, In x l -> List.length (f x) = k) ->
+  List.length (flat_map f l) = (List.length l * k)%nat.
+Proof.
+  induction l as [|x l IH]; intros H; [reflexivity|]. cbn [flat_map List.length]. rewrite app_length, (H x (or_introl eq_refl)), IH; [lia|].
+  intros y Hy. apply H. right. exact Hy.
+Qed.
+
+Lemma fts_uv_length m : (has_tex m = true -> tex_ok m) -> has_tex m = true -> forall tu, In tu (fts_of m) -> List.length (snd tu) = 6%nat.
+Proof.
+  intros Hx Ht tu Hin. unfold fts_of in Hin. apply in_map_iff in Hin. destruct Hin as (t & <- & Hin').
+  destruct (Hx Ht t Hin') as (u & U & L & _). cbn [snd]. rewrite (uvf_ok m t u U). exact L.
+Qed.
+
+Theorem closed_body_describes f gs m : Forall (group_good (w_n m)) gs -> (has_tex m = true -> tex_ok m) ->
+  match closed_body f gs m with
+  | BodyBin bytes =>
+      List.length bytes = (w_n m * record_size (vertex_props gs) + List.length (faces_of m) * face_bytes m)%nat
+  | BodyAscii lines =>
+      List.length lines = (w_n m + List.length (faces_of m))%nat /\
+      Forall (fun l => List.length l = List.length (vertex_props gs)) (firstn (w_n m) lines) /\
+      Forall (fun l => List.length l = face_toks m) (skipn (w_n m) lines)
+  end.
+Proof.
+  intros Hg Hx. unfold closed_body, face_bytes, face_toks.
+  assert (Lv : List.length (map (fun i => flat_map (fun g => gtoks g i) gs) (seq 0 (w_n m))) = w_n m) by (rewrite map_length, seq_length; reflexivity).
+  destruct f.
+  - set (V := map (fun i => flat_map (fun g => gtoks g i) gs) (seq 0 (w_n m))) in *.
+    set (F := if has_tex m then map line_tex (fts_of m) else map line_notex (faces_of m)).
+    assert (Ef : firstn (w_n m) (V ++ F) = V)
+      by (rewrite firstn_app, Lv, Nat.sub_diag, firstn_O, app_nil_r; apply firstn_all2; rewrite Lv; apply le_n).
+    assert (Es : skipn (w_n m) (V ++ F) = F)
+      by (rewrite skipn_app, Lv, Nat.sub_diag, skipn_O, skipn_all2 by (rewrite Lv; apply le_n); reflexivity).
+    rewrite Ef, Es. split; [|split].
+    + rewrite app_length, Lv. unfold F. destruct (has_tex m); [unfold fts_of|]; rewrite !map_length; reflexivity.
+    + apply Forall_forall. intros l Hl. unfold V in Hl.
+      apply in_map_iff in Hl. destruct Hl as (i & <- & Hi). apply in_seq in Hi. apply (line_length (w_n m)); [exact Hg|lia].
+    + unfold F. destruct (has_tex m) eqn:Et.
+      * apply Forall_forall. intros l Hl. apply in_map_iff in Hl. destruct Hl as (tu & <- & Hin).
+        pose proof (fts_uv_length m (fun _ => Hx eq_refl) Et tu Hin) as L. destruct tu as [[[a b] c] u]. cbn [snd] in L. unfold line_tex, line_notex. cbn [fst snd].
+        rewrite !app_length, map_length, L. reflexivity.
+      * apply Forall_forall. intros l Hl. apply in_map_iff in Hl. destruct Hl as ([[a b] c] & <- & _). reflexivity.
+  - rewrite app_length, (vertex_block_length _ (w_n m)) by exact Hg. f_equal. destruct (has_tex m) eqn:Et.
+    + rewrite (flat_map_const_length _ 38%nat); [unfold fts_of; rewrite map_length; reflexivity|].
+      intros tu Hin. apply rec_tex_length, (fts_uv_length m (fun _ => Hx eq_refl) Et tu Hin).
+    + apply flat_map_const_length. intros t _. apply rec_notex_length.
+  - rewrite app_length, (vertex_block_length _ (w_n m)) by exact Hg. f_equal. destruct (has_tex m) eqn:Et.
+    + rewrite (flat_map_const_length _ 38%nat); [unfold fts_of; rewrite map_length; reflexivity|].
+      intros tu Hin. apply rec_tex_length, (fts_uv_length m (fun _ => Hx eq_refl) Et tu Hin).
+    + apply flat_map_const_length. intros t _. apply rec_notex_length.
+Qed.
+
+(* stated on what [write] returns: the parsed header gives the element counts and property lists, and these
+   determine the size of the body that follows *)
+Theorem write_header_describes_body o f m :
+  let gs := map (group_of m) (effective_writers o m) in
+  Forall (group_good (w_n m)) gs -> (f = ASCII -> w_n m = 0%nat \/ gs <> []) ->
+  (w_topo m = TTriangle -> (List.length (w_idx m) mod 3 = 0)%nat) -> (has_tex m = true -> tex_ok m) ->
+  exists file, write o f m = Ok file /\
+    parse_header (pf_header file) = Ok {| h_fmt := f; h_elems := header_elems gs m; h_comments := [tl comment_line] |} /\
+    (exists ve, nth_error (header_elems gs m) 0 = Some ve /\ e_count ve = Z.of_nat (w_n m) /\ e_props ve = vertex_props gs) /\
+    (w_topo m = TTriangle -> exists fe, nth_error (header_elems gs m) 1 = Some fe /\ e_count fe = Z.of_nat (List.length (faces_of m))
+                                        /\ e_props fe = face_props m) /\
+    match pf_body file with
+    | BodyBin bytes => List.length bytes = (w_n m * record_size (vertex_props gs) + List.length (faces_of m) * face_bytes m)%nat
+    | BodyAscii lines =>
+        List.length lines = (w_n m + List.length (faces_of m))%nat /\
+        Forall (fun l => List.length l = List.length (vertex_props gs)) (firstn (w_n m) lines) /\
+        Forall (fun l => List.length l = face_toks m) (skipn (w_n m) lines)
+    end.
+Proof.
+  intros gs Hg Hne Hm Hx. exists {| pf_header := header_lines f (header_elems gs m); pf_body := closed_body f gs m |}.
+  split; [unfold write; fold gs; rewrite write_body_closed by assumption; reflexivity|]. cbn [pf_header pf_body].
+  split; [apply parse_header_written, header_elems_ok|]. split; [eexists; split; [reflexivity|auto]|]. split.
+  - intros T. unfold header_elems. rewrite T. eexists. split; [reflexivity|]. cbn [e_count e_props]. split; [|reflexivity].
+    f_equal. unfold nprims, faces_of. rewrite T. symmetry. apply (tris_spec (List.length (w_idx m))); [apply le_n|apply Hm, T].
+  - apply closed_body_describes; assumption.
+Qed.
+
+(* ================= readers placed anywhere in the reader list (the reader's order need not be the file's) ================= *)
+Definition built_at (bin : bool) (g : rgroup) (cur : nat) : built :=
+  {| b_attr := rg_attr g; b_names := rg_names g; b_offs := offs_from bin cur (rg_ty g) (List.length (rg_names g));
+     b_ty := rg_ty g; b_v1 := Nat.eqb (List.length (rg_names g)) 1 |}.
+Definition placed (bin : bool) (gr : list rgroup) (p : rgroup * nat) : Prop :=
+  exists G1 G2, gr = G1 ++ fst p :: G2 /\ snd p = gcur bin 0 G1.
+
+Lemma layout_one bin g c : layout bin [g] c = [built_at bin g c].
+Proof. reflexivity. Qed.
+
+Lemma gcur_bin_size gs : forall c, gcur true c gs = (c + size_of (tys_of gs))%nat.
+Proof.
+  induction gs as [|g gs IH]; intros c; [cbn; lia|]. cbn [gcur fold_left]. fold (gcur true (gstep true c g) gs). rewrite IH.
+  unfold tys_of. cbn [flat_map]. fold (tys_of gs). unfold gstep, g_tys.
+  assert (E : forall l r, size_of (map (fun _ : string => rg_ty g) l ++ r) = (List.length l * sty_size (rg_ty g) + size_of r)%nat).
+  { induction l as [|x l IHl]; intros r; [reflexivity|]. cbn [map app size_of fold_right List.length]. fold (size_of (map (fun _ : string => rg_ty g) l ++ r)). rewrite IHl. lia. }
+  rewrite E. lia.
+Qed.
+Lemma gcur_ascii_len gs : forall c, gcur false c gs = (c + List.length (vertex_props gs))%nat.
+Proof.
+  induction gs as [|g gs IH]; intros c; [cbn; lia|]. cbn [gcur fold_left]. fold (gcur false (gstep false c g) gs). rewrite IH.
+  unfold vertex_props. cbn [flat_map]. rewrite app_length. unfold gstep, group_props. rewrite map_length. lia.
+Qed.
+
+Lemma mapR_single {A B} (f : A -> result B) x y : mapR f [x] = Ok [y] -> f x = Ok y.
+Proof. cbn [mapR]. destruct (f x); cbn [rbind]; [intros H; injection H as ->; reflexivity|discriminate]. Qed.
+
+Lemma read_placed_bin e n i gr p : Forall (group_good n) gr -> (i < n)%nat -> placed true gr p ->
+  read_bin_row e (built_at true (fst p) (snd p)) (flat_map (fun g => genc e g i) gr) = Ok (map (vl (rg_ty (fst p))) (rowi (fst p) i)).
+Proof.
+  intros Hg Hi (G1 & G2 & E & Ec). destruct p as [g cur]. cbn [fst snd] in *. subst gr cur.
+  apply Forall_app in Hg. destruct Hg as [Hg1 Hg2]. apply Forall_cons_iff in Hg2. destruct Hg2 as [Hgg Hg2].
+  rewrite flat_map_app. cbn [flat_map].
+  pose proof (read_row_bin e n i [g] (flat_map (fun g0 => genc e g0 i) G1) (flat_map (fun g0 => genc e g0 i) G2)
+                (Forall_cons _ Hgg (Forall_nil _)) Hi) as R.
+  cbn [flat_map] in R. rewrite app_nil_r in R. rewrite (genc_total_length e n G1 i Hg1 Hi) in R.
+  rewrite layout_one in R. cbn [map] in R. apply mapR_single in R.
+  rewrite gcur_bin_size. cbn [Nat.add]. exact R.
+Qed.
+
+Lemma read_placed_ascii n i gr p : Forall (group_good n) gr -> forallb ascii_ok gr = true -> (i < n)%nat -> placed false gr p ->
+  read_ascii_row (built_at false (fst p) (snd p)) (flat_map (fun g => gtoks g i) gr) = Ok (map (vl (rg_ty (fst p))) (rowi (fst p) i)).
+Proof.
+  intros Hg Ha Hi (G1 & G2 & E & Ec). destruct p as [g cur]. cbn [fst snd] in *. subst gr cur.
+  apply Forall_app in Hg. destruct Hg as [Hg1 Hg2]. apply Forall_cons_iff in Hg2. destruct Hg2 as [Hgg Hg2].
+  rewrite forallb_app in Ha. apply andb_prop in Ha. destruct Ha as [_ Ha]. cbn [forallb] in Ha. apply andb_prop in Ha. destruct Ha as [Hag _].
+  rewrite flat_map_app. cbn [flat_map].
+  pose proof (read_row_ascii n i [g] (flat_map (fun g0 => gtoks g0 i) G1) (flat_map (fun g0 => gtoks g0 i) G2)
+                (Forall_cons _ Hgg (Forall_nil _)) ltac:(cbn [forallb]; rewrite Hag; reflexivity) Hi) as R.
+  cbn [flat_map] in R. rewrite app_nil_r in R. rewrite (line_length n G1 i Hg1 Hi) in R.
+  rewrite layout_one in R. unfold vrow in R. cbn [map] in R. apply mapR_single in R.
+  rewrite gcur_ascii_len. cbn [Nat.add]. exact R.
+Qed.
+
+Definition breaders (bin : bool) (PL : list (rgroup * nat)) : list built := map (fun p => built_at bin (fst p) (snd p)) PL.
+
+Lemma read_rows_placed_bin e n i gr PL : Forall (group_good n) gr -> (i < n)%nat -> Forall (placed true gr) PL ->
+  mapR (fun b => read_bin_row e b (flat_map (fun g => genc e g i) gr)) (breaders true PL) = Ok (vrow (map fst PL) i).
+Proof.
+  intros Hg Hi Hp. unfold breaders, vrow. rewrite mapR_map, map_map. apply mapR_ok. intros p Hin.
+  rewrite Forall_forall in Hp. apply (read_placed_bin e n); [exact Hg|exact Hi|apply Hp, Hin].
+Qed.
+Lemma read_rows_placed_ascii n i gr PL : Forall (group_good n) gr -> forallb ascii_ok gr = true -> (i < n)%nat -> Forall (placed false gr) PL ->
+  mapR (fun b => read_ascii_row b (flat_map (fun g => gtoks g i) gr)) (breaders false PL) = Ok (vrow (map fst PL) i).
+Proof.
+  intros Hg Ha Hi Hp. unfold breaders, vrow. rewrite mapR_map, map_map. apply mapR_ok. intros p Hin.
+  rewrite Forall_forall in Hp. apply (read_placed_ascii n); [exact Hg|exact Ha|exact Hi|apply Hp, Hin].
+Qed.
+
+Theorem read_vertices_bin_placed e n gr PL : forall k (rest : list N), Forall (group_good n) gr -> Forall (placed true gr) PL -> (k <= n)%nat ->
+  read_vertices_bin e (breaders true PL) (size_of (tys_of gr)) k
+    (flat_map (fun i => flat_map (fun g => genc e g i) gr) (seq (n - k) k) ++ rest)
+  = Ok (map (vrow (map fst PL)) (seq (n - k) k), rest).
+Proof.
+  induction k as [|k IH]; intros rest Hg Hp Hk; [reflexivity|].
+  cbn [seq flat_map map read_vertices_bin]. rewrite <- app_assoc.
+  rewrite take_app_exact by (symmetry; apply (genc_total_length e n); [assumption|lia]). cbn [of_opt rbind].
+  rewrite (read_rows_placed_bin e n) by (try assumption; lia). cbn [rbind]. replace (S (n - S k)) with (n - k)%nat by lia.
+  rewrite IH by (try assumption; lia). reflexivity.
+Qed.
+
+Theorem read_vertices_ascii_placed n gr PL : forall k (rest : list (list tok)),
+  Forall (group_good n) gr -> forallb ascii_ok gr = true -> (n = 0%nat \/ vertex_props gr <> []) -> Forall (placed false gr) PL -> (k <= n)%nat ->
+  read_vertices_ascii (breaders false PL) (List.length (vertex_props gr))
+    (map (fun i => flat_map (fun g => gtoks g i) gr) (seq (n - k) k) ++ rest) k
+  = Ok (map (vrow (map fst PL)) (seq (n - k) k), rest).
+Proof.
+  induction k as [|k IH]; intros rest Hg Ha Hne Hp Hk.
+  - cbn [seq map app read_vertices_ascii]. destruct rest; reflexivity.
+  - cbn [seq map app read_vertices_ascii].
+    assert (Hne' : vertex_props gr <> []) by (destruct Hne as [Hn0|Hne']; [lia|exact Hne']).
+    pose proof (line_length n gr (n - S k) Hg ltac:(lia)) as Ll.
+    destruct (flat_map (fun g => gtoks g (n - S k)) gr) as [|t0 l0] eqn:El.
+    { exfalso. destruct (vertex_props gr); [congruence|discriminate]. }
+    rewrite Ll. rewrite Nat.ltb_irrefl. rewrite <- El.
+    rewrite (read_rows_placed_ascii n) by (try assumption; lia). cbn [rbind]. replace (S (n - S k)) with (n - k)%nat by lia.
+    rewrite IH by (try assumption; lia). reflexivity.
+Qed.
+
+(* update_mesh only looks at the attribute name and the number of members of each reader *)
+Lemma offs_from_length bin t k : forall c, List.length (offs_from bin c t k) = k.
+Proof. induction k as [|k IH]; intros c; [reflexivity|]. cbn [offs_from List.length]. rewrite IH. reflexivity. Qed.
+Lemma update_mesh_shape rows : forall bs bs' j l,
+  Forall2 (fun b b' => b_attr b = b_attr b' /\ List.length (b_offs b) = List.length (b_offs b')) bs bs' ->
+  update_mesh bs j rows l = update_mesh bs' j rows l.
+Proof.
+  induction bs as [|b bs IH]; intros bs' j l H; inversion H as [|? b' ? bs'' [Ea El] Hr]; subst; [reflexivity|].
+  cbn [update_mesh]. rewrite Ea, El. apply IH, Hr.
+Qed.
+Lemma breaders_layout_shape bin PL : forall c,
+  Forall2 (fun b b' => b_attr b = b_attr b' /\ List.length (b_offs b) = List.length (b_offs b')) (breaders bin PL) (layout bin (map fst PL) c).
+Proof.
+  induction PL as [|p PL IH]; intros c; [constructor|]. cbn [breaders map layout]. constructor; [|apply IH].
+  cbn [built_at b_attr b_offs]. rewrite !offs_from_length. auto.
+Qed.
+Theorem attrs_of_placed bin n PL : (0 < n)%nat -> Forall (fun g => List.length (rg_rows g) = n) (map fst PL) -> keys_ok [] (map fst PL) = true ->
+  update_mesh (breaders bin PL) 0 (map (vrow (map fst PL)) (seq 0 n)) [] = map gattr (map fst PL).
+Proof.
+  intros Hn Hl Hk. rewrite (update_mesh_shape _ _ _ 0%nat [] (breaders_layout_shape bin PL 0%nat)). apply attrs_of_layout; assumption.
+Qed.
+
+(* point clouds read through readers the reader placed in its own order *)
+Definition readers_placed (bin : bool) (gr : list rgroup) (PL : list (rgroup * nat)) : Prop :=
+  build_readers bin default_groups true (vertex_props gr) = Ok (breaders bin PL) /\ Forall (placed bin gr) PL.
+
+Theorem read_mesh_pointcloud_placed f gr PL m : w_topo m = TPoint ->
+  Forall (group_good (w_n m)) gr -> readers_placed (is_bin f) gr PL ->
+  (f = ASCII -> forallb ascii_ok gr = true /\ (w_n m = 0%nat \/ vertex_props gr <> [])) ->
+  read_mesh {| pf_header := header_lines f (header_elems gr m); pf_body := closed_body f gr m |}
+  = Ok {| m_topo := TPoint; m_idx := iota (w_n m);
+          m_attrs := update_mesh (breaders (is_bin f) PL) 0 (map (vrow (map fst PL)) (seq 0 (w_n m))) [] |}.
+Proof.
+  intros Ht Hg [Hr Hp] Ha. unfold read_mesh. cbn [pf_header pf_body].
+  rewrite parse_header_written by apply header_elems_ok. cbn [rbind].
+  unfold read_body. cbn [h_elems h_fmt]. unfold header_elems. rewrite Ht.
+  cbn [find_last_elem e_name]. change (seqb "vertex" "vertex") with true. change (seqb "vertex" "face") with false. cbv iota.
+  cbn [of_opt rbind e_props e_count]. rewrite all_scalar_props. cbn [negb].
+  replace (Z.of_nat (w_n m) <? 0)%Z with false by lia. cbv iota. rewrite Nat2Z.id.
+  unfold closed_body, fts_of, faces_of. rewrite Ht. cbn [map flat_map].
+  destruct f; cbn [is_bin] in *.
+  - destruct (Ha eq_refl) as [A1 A2].
+    pose proof (read_vertices_ascii_placed (w_n m) gr PL (w_n m) [] Hg A1 A2 Hp (le_n _)) as R. rewrite Nat.sub_diag in R.
+    destruct (has_tex m); rewrite Hr; cbn [rbind]; rewrite R; cbn [rbind]; reflexivity.
+  - pose proof (read_vertices_bin_placed LEnd (w_n m) gr PL (w_n m) [] Hg Hp (le_n _)) as R.
+    rewrite Nat.sub_diag, <- record_size_props in R. cbn [enc_of].
+    destruct (has_tex m); rewrite Hr; cbn [rbind]; rewrite R; cbn [rbind]; reflexivity.
+  - pose proof (read_vertices_bin_placed BEnd (w_n m) gr PL (w_n m) [] Hg Hp (le_n _)) as R.
+    rewrite Nat.sub_diag, <- record_size_props in R. cbn [enc_of].
+    destruct (has_tex m); rewrite Hr; cbn [rbind]; rewrite R; cbn [rbind]; reflexivity.
+Qed.
+
+(* ================= the property, packaged ================= *)
+(* what "the header describes the body that follows" means for a written file *)
+Definition described (f : fmt) (gs : list rgroup) (m : wmesh) (file : plyfile) : Prop :=
+  parse_header (pf_header file) = Ok {| h_fmt := f; h_elems := header_elems gs m; h_comments := [tl comment_line] |} /\
+  (exists ve, nth_error (header_elems gs m) 0 = Some ve /\ e_count ve = Z.of_nat (w_n m) /\ e_props ve = vertex_props gs) /\
+  (w_topo m = TTriangle -> exists fe, nth_error (header_elems gs m) 1 = Some fe /\ e_count fe = Z.of_nat (List.length (faces_of m))
+                                      /\ e_props fe = face_props m) /\
+  match pf_body file with
+  | BodyBin bytes => List.length bytes = (w_n m * record_size (vertex_props gs) + List.length (faces_of m) * face_bytes m)%nat
+  | BodyAscii lines =>
+      List.length lines = (w_n m + List.length (faces_of m))%nat /\
+      Forall (fun l => List.length l = List.length (vertex_props gs)) (firstn (w_n m) lines) /\
+      Forall (fun l => List.length l = face_toks m) (skipn (w_n m) lines)
+  end.
+
+Theorem ply_property_default o m : o_writers o = default_writers -> wf_mesh m = true -> no_st m ->
+  (w_n m = 0%nat \/ vertex_props (rview o m) <> []) ->
+  let gs := map (group_of m) (effective_writers o m) in
+  exists fa fl fb r,
+    write o ASCII m = Ok fa /\ write o BinLE m = Ok fl /\ write o BinBE m = Ok fb /\
+    expected o m = Ok r /\ read_mesh fa = Ok r /\ read_mesh fl = Ok r /\ read_mesh fb = Ok r /\
+    described ASCII gs m fa /\ described BinLE gs m fl /\ described BinBE gs m fb.
+Proof.
+  intros Ho Hwf C Hne gs.
+  destruct (ply_encodings_agree_default o m Ho Hwf C Hne) as (fa & fl & fb & r & Wa & Wl & Wb & Ra & Rl & Rb & Ee).
+  destruct (default_conditions o ASCII m Ho Hwf C (fun _ => Hne)) as (Hg & _ & _ & _ & _ & Ht & Hx & _).
+  destruct (rview_same (w_n m) m (effective_writers o m) Hg) as (P & _ & _).
+  assert (Hgs : w_n m = 0%nat \/ gs <> []).
+  { destruct Hne as [E|E]; [left; exact E|right]. intros Hnil. apply E. unfold rview. rewrite P. fold gs. rewrite Hnil. reflexivity. }
+  assert (D : forall f file, write o f m = Ok file -> described f gs m file).
+  { intros f file W. destruct (write_header_describes_body o f m Hg (fun _ => Hgs) (fun T => proj1 (Ht T)) Hx) as (file' & W' & D1 & D2 & D3 & D4).
+    assert (file' = file) by congruence. subst file'. unfold described. auto. }
+  exists fa, fl, fb, r.
+  exact (conj Wa (conj Wl (conj Wb (conj Ee (conj Ra (conj Rl (conj Rb (conj (D _ _ Wa) (conj (D _ _ Wl) (D _ _ Wb)))))))))).
+Qed.
